@@ -122,6 +122,7 @@ static void install(void)
     sigaction(SIGVTALRM, &sa, NULL);     /* CPU-time watchdog of vp_try: a call that spins is reported, not waited for */
 }
 
+static const char* vp_curop_any(void);
 int vp_try(void (*fn)(void*), void* arg)
 {
     sigjmp_buf jb;
@@ -141,15 +142,58 @@ int vp_try(void (*fn)(void*), void* arg)
     }
     if (!prev) setitimer(ITIMER_VIRTUAL, &off, NULL);
     in_try = prev != NULL; cur_jmp = prev;
+    if (sig == SIGVTALRM) {
+        /* a third call of this process that spins: stop here instead of waiting 5 s for every remaining case */
+        static int spins;
+        if (++spins >= 3) {
+            char line[400]; int n = snprintf(line, sizeof line, "V|hang:three-calls-exceeded-the-5s-cpu-watchdog:%s|{\"note\":\"vp_try watchdog\"}\nEND|watchdog\n", vp_curop_any());
+            vp_write(line, (size_t)n);
+            _exit(0);
+        }
+    }
     return sig;
 }
 
 /* ---------------------------------------------------------------- current-op record */
 static __thread char curop[256];
+static char curop_any[256];          /* copy readable from the watchdog handler whatever thread it runs on */
+static const char* vp_curop_any(void) { return curop_any; }
+
+/* ---------------------------------------------------------------- progress watchdog
+ * Monitors call the library all the time; when no call has been *started* for 14-21 CPU seconds of the process
+ * (ITIMER_PROF: immune to machine load) a library call is spinning.  The handler reports it as a violation keyed by the
+ * operation in progress and ends the process, so that a change that makes a call loop forever is a verdict and not a
+ * time-out.  Calls made under vp_try() have their own 5 s watchdog and are reported there. */
+extern volatile unsigned long vp_progress_counter;
+static void on_prof(int sig)
+{
+    static unsigned long last = ~0ul; static int strikes;
+    (void)sig;
+    unsigned long now = vp_progress_counter;
+    if (now != last) { last = now; strikes = 0; return; }
+    if (++strikes < 2) return;
+    char line[400]; int n = snprintf(line, sizeof line, "V|hang:no-library-call-started-for-14-cpu-seconds:%s|{\"note\":\"progress watchdog\"}\nEND|watchdog\n", curop_any);
+    for (int i = 5; i < n - 60 && line[i] != '{'; i++) if (line[i] == '|' && i > 50) line[i] = ':';
+    vp_write(line, (size_t)n);
+    _exit(0);
+}
+
+void vp_watchdog_start(void)
+{
+    static int started;
+    if (started) return;
+    started = 1;
+    struct sigaction sa; memset(&sa, 0, sizeof sa); sa.sa_handler = on_prof; sa.sa_flags = SA_RESTART;
+    sigaction(SIGPROF, &sa, NULL);
+    struct itimerval it; memset(&it, 0, sizeof it);
+    it.it_value.tv_sec = 7; it.it_interval.tv_sec = 7;
+    setitimer(ITIMER_PROF, &it, NULL);
+}
 
 void vp_curop(const char* a, const char* b, const char* c, uint64_t n)
 {
     snprintf(curop, sizeof curop, "%s|%s|%s|%llu", a ? a : "", b ? b : "", c ? c : "", (unsigned long long)n);
+    snprintf(curop_any, sizeof curop_any, "%s:%s:%s", a ? a : "", b ? b : "", c ? c : "");
 }
 
 /* called by ASan just before it prints a report */
